@@ -1055,6 +1055,11 @@ pub extern "C" fn recv_time_limit(fd: c_int) -> u64 {
     )
 }
 
+pub(crate) fn forget_time_limit(fd: c_int) {
+    _ = SEND_TIME_LIMIT.remove(&fd);
+    _ = RECV_TIME_LIMIT.remove(&fd);
+}
+
 pub(crate) fn get_time_limit(tv: &libc::timeval) -> u64 {
     let mut time_limit = u64::try_from(tv.tv_sec)
         .expect("overflow")
